@@ -14,6 +14,18 @@ CLAIMED = {
              "correspondence: every reply of every operation of generated histories (directed scenarios + state-aware random sequences, restarts interleaved) is compared.",
         design_ref="DESIGN.md 5/C02", note="trusted: Lean kernel, the hand-written reference model (validated by the correspondence itself), harness generators; statuses compared by class; timestamps not compared",
         technique="Lean 4 reference model + theorems; model/implementation correspondence on operation sequences"),
+    "C03": dict(category="proof",
+        text="PARTIAL w.r.t. schedules. Lean theorems: strict 2PL over an exclusive lock manager makes conflict order = commit order, which respects real time (stated over trace timestamps whose "
+             "hypotheses the `locks` driver checks on every recorded transaction). Deciding tie: every concurrent history (shared names, cross-directory renames over targets, shared-file "
+             "writes/truncates/reads, listings during updates, injected yields, shrinker active) is replayed in observed commit order on the sequential reference model and every reply must match.",
+        design_ref="DESIGN.md 5/C03", note="trusted: Lean kernel, reference model, fstxn hooks and harness; schedules of the real runtime are sampled, not quantified over",
+        technique="Lean 4 proof (2PL => commit-order serialization) + commit-order replay of observed concurrent histories on the reference model"),
+    "C06": dict(category="proof",
+        text="Lean theorem ordered_no_deadlock on the waits-for model of the lock manager (ascending requests, fresh-allocation exception) + executable validators proved sound; the "
+             "acquisition sequence of EVERY transaction of sequential and concurrent runs is validated by the Lean driver (ordering bugs are reported from one sequential execution), "
+             "watchdogs search for hangs.",
+        design_ref="DESIGN.md 5/C06", note="trusted: Lean kernel, lock-manager model, fstxn hooks and harness; fair sync.Cond scheduling assumed",
+        technique="Lean 4 proof (no cycle in waits-for under ordered acquisition) + validation of recorded lock traces"),
     "C08": dict(category="proof",
         text="Lean theorems on the reference model: generations are monotone and bump at every allocation/free, a dead handle stays dead after ANY history (stale_forever), every "
              "procedure and handle position refuses a dead handle, created handles are fresh; correspondence with a stale-handle bank, forced inode-number reuse and an "
